@@ -187,6 +187,85 @@ pub fn skin_bytes(rng: &mut Rng, old: bool) -> Option<Vec<u8>> {
     let mut c = Cursor::new(Vec::new()); f.write(&mut c).ok()?; Some(c.into_inner())
 }
 
+// ---------- .anim files (modern container): write -> parse -> write, conversion, and Model.C13Anim ----------
+use wow_m2::anim::{AnimBoneAnimation, AnimEntry, AnimFile, AnimFormat, AnimHeader, AnimMetadata, AnimRotation, AnimScaling, AnimSection, AnimSectionHeader, AnimTranslation};
+
+fn dots(v: &[u32]) -> String { v.iter().map(|x| x.to_string()).collect::<Vec<_>>().join(".") }
+pub fn anim_canon(f: &AnimFile) -> String {
+    let (ver, unk) = match &f.metadata { AnimMetadata::Modern { header, .. } => (header.version, header.unknown), _ => (0, 0) };
+    let mut s = format!("v{ver} u{unk}");
+    for sec in &f.sections {
+        s += &format!(" S{},{},{}", sec.header.id, sec.header.start, sec.header.end);
+        for b in &sec.bone_animations {
+            let t = match &b.translation { None => "-".to_string(), Some(t) => format!("{}|{}", dots(&t.timestamps), dots(&t.translations.iter().flat_map(|v| [v.x.to_bits(), v.y.to_bits(), v.z.to_bits()]).collect::<Vec<_>>())) };
+            let r = match &b.rotation { None => "-".to_string(), Some(t) => format!("{}|{}", dots(&t.timestamps), dots(&t.rotations.iter().flat_map(|v| [v.x.to_bits(), v.y.to_bits(), v.z.to_bits(), v.w.to_bits()]).collect::<Vec<_>>())) };
+            let c = match &b.scaling { None => "-".to_string(), Some(t) => format!("{}|{}", dots(&t.timestamps), dots(&t.scalings.iter().flat_map(|v| [v.x.to_bits(), v.y.to_bits(), v.z.to_bits()]).collect::<Vec<_>>())) };
+            s += &format!(" B{}:{t}/{r}/{c}", b.bone_id);
+        }
+    }
+    s
+}
+fn fl(rng: &mut Rng) -> f32 { if rng.chance(1, 6) { f32::from_bits(rng.u32() & 0xFF7F_FFFF) } else { f(rng) } }
+fn gen_anim(rng: &mut Rng, named_empty_bones: bool) -> AnimFile {
+    let nsec = rng.range(0, 4) as usize;
+    let mut sections = vec![];
+    for si in 0..nsec {
+        let nb = match rng.below(5) { 0 => 0, 1 => 1, _ => rng.range(1, 6) as usize };
+        let mut bones = vec![];
+        for bi in 0..nb {
+            let mask = rng.below(8);
+            let keys = |rng: &mut Rng| match rng.below(4) { 0 => 0usize, 1 => 1, _ => rng.range(1, 5) as usize };
+            let translation = if mask & 1 != 0 { let n = keys(rng); Some(AnimTranslation { timestamps: (0..n).map(|k| k as u32 * 33 + rng.below(9) as u32).collect(), translations: (0..n).map(|_| C3Vector { x: fl(rng), y: fl(rng), z: fl(rng) }).collect() }) } else { None };
+            let rotation = if mask & 2 != 0 { let n = keys(rng); Some(AnimRotation { timestamps: (0..n).map(|k| k as u32 * 10).collect(), rotations: (0..n).map(|_| wow_m2::common::Quaternion { x: fl(rng), y: fl(rng), z: fl(rng), w: fl(rng) }).collect() }) } else { None };
+            let scaling = if mask & 4 != 0 { let n = keys(rng); Some(AnimScaling { timestamps: (0..n).map(|_| rng.u32()).collect(), scalings: (0..n).map(|_| C3Vector { x: fl(rng), y: fl(rng), z: fl(rng) }).collect() }) } else { None };
+            let bone_id = if mask == 0 && !named_empty_bones { 0 } else { (bi as u32) * 3 + rng.below(3) as u32 + if mask == 0 { 1 } else { 0 } };
+            bones.push(AnimBoneAnimation { bone_id, translation, rotation, scaling });
+        }
+        sections.push(AnimSection { header: AnimSectionHeader { magic: *b"AFID", id: 4 + si as u32 * 7, start: rng.below(100) as u32, end: 100 + rng.below(5000) as u32 }, bone_animations: bones });
+    }
+    let entries = sections.iter().map(|s| AnimEntry { id: s.header.id, offset: 0, size: 0 }).collect();
+    AnimFile { format: AnimFormat::Modern, metadata: AnimMetadata::Modern { header: AnimHeader { magic: *b"MAOF", version: 1 + rng.below(3) as u32, id_count: sections.len() as u32, unknown: rng.below(3) as u32, anim_entry_offset: 20 }, entries }, sections }
+}
+fn anim_write(f: &AnimFile) -> Result<Vec<u8>, String> { let f = f.clone(); match std::panic::catch_unwind(move || { let mut c = Cursor::new(Vec::new()); f.write(&mut c).map(|_| c.into_inner()) }) { Ok(Ok(b)) => Ok(b), Ok(Err(e)) => Err(e.to_string()), Err(_) => Err("writer panics".into()) } }
+fn anim_parse(b: &[u8]) -> Result<AnimFile, String> { let b = b.to_vec(); match std::panic::catch_unwind(move || AnimFile::parse(&mut Cursor::new(b))) { Ok(Ok(m)) => Ok(m), Ok(Err(e)) => Err(e.to_string()), Err(_) => Err("parser panics".into()) } }
+
+fn run_anims(ctx: &mut Ctx) {
+    let n = if ctx.thorough { 600 } else { 80 };
+    for k in 0..n {
+        let named = k % 10 == 9; // a bone without tracks that carries an id: nothing of it is stored (known finding)
+        let f = gen_anim(&mut ctx.rng, named);
+        let desc = format!("anim sections={} bones={:?} named_empty_bones={named}", f.sections.len(), f.sections.iter().map(|s| s.bone_animations.len()).collect::<Vec<_>>());
+        ctx.out.stat(&format!("c13.anim.sections.{}", f.sections.len()));
+        let bytes = match anim_write(&f) { Ok(b) => b, Err(e) => { ctx.out.oracle(false, "anim-writer-fails", &format!("{desc}: {e}")); continue; } };
+        let want = anim_canon(&f);
+        match anim_parse(&bytes) {
+            Err(e) => ctx.out.oracle(false, "anim-own-output-does-not-parse", &format!("{desc}: {e}")),
+            Ok(g) => {
+                let got = anim_canon(&g);
+                let same = got == want;
+                ctx.out.oracle(same, if named { "anim-empty-bone-id-not-preserved" } else { "anim-content-differs-after-write-parse" }, &format!("{desc}: wrote {want} read {got}"));
+                match anim_write(&g) { Ok(b2) => ctx.out.oracle(b2 == bytes, "anim-second-write-differs", &desc), Err(e) => ctx.out.oracle(false, "anim-writer-fails", &format!("{desc} (second write): {e}")) }
+                if same && bytes.len() > 60 { ctx.out.nontrivial(bytes.as_slice()); }
+                // same-version conversion changes nothing; conversion to the other container keeps the sections
+                let same_ver = g.convert(M2Version::Legion);
+                ctx.out.oracle(anim_canon(&same_ver) == got && same_ver.format == AnimFormat::Modern, "anim-same-version-conversion-changes-content", &desc);
+                let legacy = g.convert(M2Version::WotLK); let back = legacy.convert(M2Version::Legion);
+                ctx.out.oracle(back.sections.len() == g.sections.len() && back.sections.iter().zip(&g.sections).all(|(a, b)| a.header.id == b.header.id && a.bone_animations.len() == b.bone_animations.len()), "anim-conversion-loses-sections", &desc);
+                // (M) the model reads the same bytes and lays the same content out again
+                ctx.out.case(&format!("c13animparse {}", hex(&bytes)), &got);
+                ctx.out.case(&format!("c13animrw {}", hex(&bytes)), &hex(&bytes));
+            }
+        }
+    }
+    // the legacy container: what the writer emits for a file with content is not read back (the reader is a placeholder)
+    {
+        let f = gen_anim(&mut Rng::new(77), false).convert(M2Version::WotLK);
+        if let Ok(b) = anim_write(&f) { match anim_parse(&b) {
+            Ok(g) => ctx.out.oracle(g.sections.len() == f.sections.len() && g.sections.iter().zip(&f.sections).all(|(a, b)| a.header.id == b.header.id && a.bone_animations.len() == b.bone_animations.len()), "anim-legacy-content-not-read-back", &format!("legacy container: wrote {} sections {:?}, read {} sections {:?}", f.sections.len(), f.sections.iter().map(|s| (s.header.id, s.bone_animations.len())).collect::<Vec<_>>(), g.sections.len(), g.sections.iter().map(|s| (s.header.id, s.bone_animations.len())).collect::<Vec<_>>())),
+            Err(e) => ctx.out.oracle(false, "anim-legacy-content-not-read-back", &format!("legacy container: own output does not parse: {e}")) } }
+    }
+}
+
 fn run_skins(ctx: &mut Ctx) {
     use wow_m2::skin::{OldSkin, OldSkinHeader, Skin, SkinBatch, SkinFile, SkinHeader, SkinSubmesh};
     let n = if ctx.thorough { 200 } else { 40 };
@@ -219,6 +298,7 @@ fn run_skins(ctx: &mut Ctx) {
 }
 
 pub fn run(ctx: &mut Ctx) {
+    run_anims(ctx);
     run_skins(ctx);
     let n = if ctx.thorough { 500 } else { 70 };
     for k in 0..n {
